@@ -96,6 +96,15 @@ CLAIMED['C14'] = dict(
     note='Partial: builtins needing the environment / I/O / clock / randomness, struct-implemented builtins (impl Builtin) and everything listed as not encoded are outside; hangs are only seen as fuel exhaustion. '
          'The panic obligations of the kernels of C01-C12, C15, C16 are discharged in those checks (index arithmetic, % by zero, 0^-n, permutations/cycle on empty input, \\\\u overflow, decimal exponents were found there).',
     design='§7 C14', technique='symbolic execution of rustc MIR + SMT (z3): panic-path feasibility')
+CLAIMED['C04'] = dict(
+    text='Bounded symbolic model checking of the dispatch layer that makes every application form reach the same implementation: the real MIR of Func::{run, run1, run2} on the wrapper variants '
+         '(PartialApp1, PartialApp2, PartialAppLast, Flip, Composition) and the section variants (ListSection, IndexSection, SliceSection, CallSection through apply_section), with the wrapped callee, '
+         'index, slice and call replaced by application recorders, so the result is the application term itself: each wrapper applies the callee to exactly the documented argument list, sections fill '
+         'their empty slots left to right and reject too few arguments; and the hand-written run / run1 / run2 triples of the arithmetic builtins agree with each other for numbers of every tower level with '
+         'symbolic values (run(vec![a]) == run1(a), run(vec![a,b]) == run2(a,b), curried run1.run1 == run2).',
+    note='Partial: covers the function-value layer. Outside: the parser/evaluator routes that turn `a + b`, `a +(b)`, `+(a, b)`, `(+)`, sections and backtick identifiers into these Func values (Expr evaluation needs the '
+         'environment), user closures, operator assignment `a += b` (C02 covers its kernel), and builtins other than the arithmetic triples.',
+    design='§7 C04', technique='symbolic execution of rustc MIR + SMT (z3) with recorder stubs for callee / index / slice / call')
 NOT_APPLICABLE = {
  'C13': 'sequence library vs executable specification: the deciding content is std collections glued by one-line closures over whole sequences; not encodable as a bounded solver query over noulith code (DESIGN §9); parts decided under C08/C09/C10/C11/C14',
  'C17': 'freeze: semantic equivalence of two recursive traversals over programs; a bounded solver query cannot carry it (DESIGN §9)',
